@@ -279,6 +279,13 @@ def run(ctx):
     quoting = any(any(M.callee_name(c).endswith("quote_ascii_string_if_required") for _, c in M.calls(fn["body"])) for fn in w.all_fns()
                   if fn["path"].startswith("<ruma_federation_api::authentication::XMatrix as core::fmt::Display>::fmt") and "body" in fn)
     ctx.check(quoting, "C16.xmatrix", "C16.xmatrix:quoting", w.where(fp), bad_msg="Display does not quote parameter values")
+    # each of the four parameter values goes through the quoting helper: a value that is not a token (a server name with a port, an IPv6 literal)
+    # written raw is rejected by the parser
+    n_quote = sum(1 for fn in w.all_fns() if fn["path"].startswith("<ruma_federation_api::authentication::XMatrix as core::fmt::Display>::fmt") and "body" in fn
+                  for body in M.all_bodies(fn) for _, c in M.calls(body) if M.callee_name(c).endswith("quote_ascii_string_if_required"))
+    ctx.check(n_quote >= len(names), "C16.xmatrix", "C16.xmatrix:every-value-quoted", w.where(fp),
+              bad_msg=f"Display quotes {n_quote} of the {len(names)} parameter values ({names}): the unquoted one is written raw, e.g. `destination=host:8448` "
+                      f"which XMatrix::parse rejects (':' is not a token character)")
     path_selection(ctx, w)
     if ctx.tier == "thorough":
         from .. import witness
